@@ -34,7 +34,7 @@ class C06(PropBase):
     STEPS = {"quick": 300, "thorough": 300}
     REQUIRED_REACH = ("damaged_alone_in_chunk", "damaged_followed_by_intact_same_chunk", "damaged_split_across_calls",
                       "damaged_on_residue_path", "damaged_on_direct_path", "damaged_but_still_decodes", "error_raised_for_damaged",
-                      "final_probe_pdu", "client_subject", "server_subject", "subject_unbound_before_stream")
+                      "final_probe_pdu", "client_subject", "server_subject", "subject_unbound_before_stream", "other_session_between_chunks")
     REQUIRED_CELLS = tuple("fault:%s" % k for k in faults.INTERIOR)
 
     def __init__(self, tier="quick"):
@@ -151,10 +151,28 @@ class C06(PropBase):
         else:
             n = policy.chunk_len(rng, avail, "mixed")
         n = max(0, min(n, avail))
+        if rng.random() < 0.05:
+            return {"op": "interlope", "id": rng.choice([1, 9, 4000])}
         bk, scr = policy.buf_kind(rng)
         return {"op": "deliver", "n": n, "buf": bk, "scribble": scr}
 
     def step(self, st, op):
+        if op["op"] == "interlope" and not st.x["discard"] and not st.x["error"]:
+            # an unrelated session of the same process is handed one complete unit while the subject may hold a partial one:
+            # it must account for it like any other session
+            other = sansldap.LDAPServer()
+            probe = rfc4511.enc_msg({"t": "ExtendedRequest", "id": int(op.get("id", 1)), "controls": [], "name": "1.3.6.1.4.1.1466.20037", "value": None})
+            st.hit("other_session_between_chunks")
+            try:
+                r = other.receive(probe)
+            except sansldap.ProtocolError:
+                return
+            except Exception:  # noqa: BLE001
+                return
+            if not isinstance(r, list) or len(r) != 1:
+                raise Violation(P, "swallowed/other-session", "a fresh server session was handed one complete ExtendedRequest between two "
+                                "deliveries to the subject and returned %r without raising" % (r,))
+            return
         if op["op"] != "deliver":
             return
         x = st.x
